@@ -10,7 +10,7 @@ use serde_json::{json, Value};
 use std::io::Read;
 
 fn frames(tier: Tier) -> Vec<Seed> {
-    let mut v = seeds::small(2048, tier.pick(150, 400));
+    let mut v = seeds::small(2048, tier.pick(300, 800));
     v.push(seeds::windowed(true, 3));
     v.push(seeds::windowed(false, 2));
     // compressor output and libzstd frames
